@@ -13,9 +13,12 @@ import Glom.Model.C13Env
                |{"a":"register_op","reg":i,"op":o,"auto":f,"exact":b}
                |{"a":"lookup","reg":i,"op":o,"ty":t,"raise":b}
                |{"a":"glom","reg":i,"spec":"get"|"iterate"|"assign"|"delete"|"star","ty":t}
-               |{"a":"create","reg":i}]        (constructs registry i; must precede its other actions)
-    "impl":   {"obs":[ null                                   (register)
-                     | {"order":[t…]}                         (register_op: observed set order)
+               |{"a":"create","reg":i}         (constructs registry i; must precede its other actions)
+               |{"a":"bad_call","reg":i,"what":"register-instance"|"register_op-name"|"register_op-auto",…}]
+              a handler name starting with "!" (kw value, auto-discovery outcome) is a value
+              register()/register_op() refuse
+    "impl":   {"obs":[ null | {"raised":"TypeError"}          (register, bad_call)
+                     | {"order":[t…]}                         (register_op: observed set order; + "raised")
                      | {"created":[[op,[t…]]…]}               (create: ops a Glommer copied, set orders)
                      | {"calls":[{"op","ty","raise","ans"}…],"ran":[tag…]} …],
                "trees":[[[op,forest]…]…], "init_trees":[[[op,forest]…]…]}
@@ -99,6 +102,7 @@ inductive CAct where
   | lookup (reg : Nat) (op : Op) (ty : Ty) (raiseExc : Bool)
   | glom (reg : Nat) (spec : String) (ty : Ty)
   | create (reg : Nat)
+  | badCall (reg : Nat) (what : String)
 
 def cactOfJson (j : Json) : Except String CAct := do
   let a ← j.getObjValAs? String "a"
@@ -115,15 +119,16 @@ def cactOfJson (j : Json) : Except String CAct := do
       (← j.getObjValAs? Bool "raise")
   | "glom" => return .glom reg (← j.getObjValAs? String "spec") (← j.getObjValAs? String "ty")
   | "create" => return .create reg
+  | "bad_call" => return .badCall reg (← j.getObjValAs? String "what")
   | _ => throw s!"bad action {a}"
 
 /-- the `get_handler` calls one real `glom` / `assign` / `delete` call performs (each with
     `raise_exc=True`), following `_t_eval` 'P', `_handle_list`, `_assign_op`, `Delete._del_one`
     and `_extend_children` (keys, then get; on UnregisteredTarget — also the one it raises itself
     for instances of list / tuple / set / frozenset that only have obj-style keys — iterate) -/
-def glomCalls (H : Hier) (r : Reg) (spec : String) (t : Ty) : Reg × List Call :=
+def glomCalls (sm : Bool) (H : Hier) (r : Reg) (spec : String) (t : Ty) : Reg × List Call :=
   let one (r : Reg) (op : Op) : Reg × Call :=
-    let (r', a) := getHandler H r op t true
+    let (r', a) := getHandlerV sm H r op t true
     (r', ⟨op, t, true, a⟩)
   if spec == "star" then
     let (r1, c1) := one r "keys"
@@ -157,7 +162,12 @@ def expectedRan (spec : String) (calls : List Call) : List String :=
     | _ => []
   else calls.flatMap tagOf
 
+/-- the memo policy of the code under test, as read from its source on this run: `false` (failed
+    lookups are not memoised) is the code the theorems are about -/
+def storeMisses : Bool := !Generated.c13MemoStoresOnlySuccess
+
 structure ImplObs where
+  raised : Option String := none
   order : Option (List Ty) := none
   created : List (Op × List Ty) := []
   calls : List Call := []
@@ -179,7 +189,10 @@ def implObsOfJson (j : Json) : Except String ImplObs := do
     let created ← (match j.getObjVal? "created" with
       | .ok c => listOfJson (pairOfJson strOfJson (listOfJson strOfJson)) c
       | .error _ => pure [])
-    return { order, created, calls, ran }
+    let raised ← (match j.getObjVal? "raised" with
+      | .ok (.str e) => pure (some e)
+      | _ => pure none : Except String (Option String))
+    return { raised, order, created, calls, ran }
 
 def treesOfJson (j : Json) : Except String (List (Option (List (Op × Forest)))) :=
   listOfJson (fun x => match x with
@@ -210,14 +223,33 @@ def lookupBranch (H : Hier) (r : Reg) (op : Op) (t : Ty) : String :=
       let dropped := if d.length < m.length then "-supers-dropped" else ""
       s!"tree-{kind}{multi}{dropped}"
 
+/-- insertion into a list sorted by `<` on strings (Python's `sorted(…, key=lambda t: t.__name__)`;
+    diagnostics only) -/
+def insSorted (x : String) : List String → List String
+  | [] => [x]
+  | y :: ys => if x < y then x :: y :: ys else y :: insSorted x ys
+
+def sortNames (l : List String) : List String := l.foldr insSorted []
+
+/-- what the diagnostic classification remembers along a history -/
+structure Diag where
+  memo : List (Nat × List (Op × Ty) × List (Op × Ty))
+  lossy : List (Nat × Op) := []
+  /-- registries × types of `register` calls that were refused -/
+  rejReg : List (Nat × Ty) := []
+  /-- `(registry, op, type, handler)`: the entries a refused `register_op` call had validated for
+      an *existing* table of the op before it reached the offending type -/
+  leak : List (Nat × Op × Ty × Handler) := []
+  /-- lookups that found no handler at a moment the reference had none either -/
+  failed : List (Nat × Op × Ty) := []
+
 /-- diagnostic classification of the lookups on which the property fails (for known-finding
     classifiers); `holds` itself is `checkRun`, not this function -/
 def failingLookups (H : Hier) (S : Setup) (kinds : List RegKind) :
-    Nat → List RefReg → List (Nat × List (Op × Ty) × List (Op × Ty)) → List (Nat × Op) →
-    List Action → List (Option Answer) → List Json
-  | _, _, _, _, [], _ => []
-  | _, _, _, _, _, [] => []
-  | n, w, memo, lossy, a :: as, o :: os =>
+    Nat → List RefReg → Diag → List Action → List (Option Answer) → List Json
+  | _, _, _, [], _ => []
+  | _, _, _, _, [] => []
+  | n, w, d, a :: as, o :: os =>
     let here : List Json := match a, o with
       | .lookup i op t _, some ans =>
         (match w[i]? with
@@ -225,13 +257,19 @@ def failingLookups (H : Hier) (S : Setup) (kinds : List RegKind) :
            if answerOk (refAnswers H ρ op t) ans then [] else
            let moduleOnly := S.moduleOps.any (fun m => m.op == op) &&
              !(S.builtinOps.any (fun m => m.op == op))
-           let stale := (memo.find? (fun m => m.1 == i)).map (fun m => m.2.2.contains (op, t))
+           let stale := (d.memo.find? (fun m => m.1 == i)).map (fun m => m.2.2.contains (op, t))
            let isGlommer := match kinds[i]? with | some (.glommer _) => true | _ => false
            let app := applicable H (ρ.coverOf op) t
+           let noHandler := ans == .unregistered || ans == .ret none
+           let leaked := d.leak.any (fun l => l.1 == i && l.2.1 == op && l.2.2.1 == t &&
+             ans == .ret l.2.2.2)
            let cls :=
              if isGlommer && moduleOnly then "glommer-lacks-module-op"
+             else if leaked then "rejected-register-op-half-applied"
+             else if d.rejReg.contains (i, t) then "rejected-register-half-applied"
+             else if noHandler && d.failed.contains (i, op, t) then "failed-lookup-memoised"
              else if stale == some true then "register-op-keeps-memo"
-             else if lossy.contains (i, op) then "reregistering-type-that-is-not-its-own-subclass"
+             else if d.lossy.contains (i, op) then "reregistering-type-that-is-not-its-own-subclass"
              else if (minimal H app).length > 1 then "several-minimal-matches"
              else "other"
            [Json.mkObj [("index", n), ("reg", i), ("op", op), ("ty", t), ("class", cls),
@@ -239,23 +277,51 @@ def failingLookups (H : Hier) (S : Setup) (kinds : List RegKind) :
          | none => [])
       | _, _ => []
     let memo' := match a with
-      | .register i .. => memo.map (fun m => if m.1 == i then (m.1, [], []) else m)
-      | .registerOp i .. => memo.map (fun m => if m.1 == i then (m.1, m.2.1, m.2.2 ++ m.2.1) else m)
-      | .lookup i op t _ => memo.map (fun m => if m.1 == i then (m.1, (op, t) :: m.2.1, m.2.2) else m)
+      | .register i .. => d.memo.map (fun m => if m.1 == i then (m.1, [], []) else m)
+      | .registerOp i .. => d.memo.map (fun m => if m.1 == i then (m.1, m.2.1, m.2.2 ++ m.2.1) else m)
+      | .lookup i op t _ => d.memo.map (fun m => if m.1 == i then (m.1, (op, t) :: m.2.1, m.2.2) else m)
+      | .badCall .. => d.memo
     -- a non-exact registration of a type that already covers and is not `issubclass` of itself
     let lossy' := match a with
       | .register i t false kw =>
         (match w[i]? with
-         | some ρ => lossy ++ ((newOpMap H ρ.handlers ρ.autoOps t kw).filterMap (fun p =>
+         | some ρ => d.lossy ++ ((newOpMap H ρ.handlers ρ.autoOps t kw).filterMap (fun p =>
              if (ρ.coverOf p.1).contains t && !(H.sub t t) then some (i, p.1) else none))
-         | none => lossy)
+         | none => d.lossy)
       | .registerOp i op _ false order =>
         (match w[i]? with
          | some ρ => if order.any (fun t => (ρ.coverOf op).contains t && !(H.sub t t))
-             then lossy ++ [(i, op)] else lossy
-         | none => lossy)
-      | _ => lossy
-    here ++ failingLookups H S kinds (n + 1) (refStep H w a) memo' lossy' as os
+             then d.lossy ++ [(i, op)] else d.lossy
+         | none => d.lossy)
+      | _ => d.lossy
+    let rejReg' := match a with
+      | .register i t _ kw =>
+        (match w[i]? with
+         | some ρ => if (firstInvalid (newOpMap H ρ.handlers ρ.autoOps t kw)).isSome
+             then d.rejReg ++ [(i, t)] else d.rejReg
+         | none => d.rejReg)
+      | _ => d.rejReg
+    let leak' := match a with
+      | .registerOp i op au _ order =>
+        (match w[i]? with
+         | some ρ =>
+           (match firstInvalidAuto H au (sortNames order) (ρ.table op) with
+            | some bad =>
+              if (odGet op ρ.handlers).isSome then
+                d.leak ++ (((sortNames order).takeWhile (· != bad)).filterMap (fun t =>
+                  if (odGet t (ρ.table op)).isNone then some (i, op, t, H.auto au t) else none))
+              else d.leak
+            | none => d.leak)
+         | none => d.leak)
+      | _ => d.leak
+    let failed' := match a, o with
+      | .lookup i op t _, some _ =>
+        (match w[i]? with
+         | some ρ => if refAnswers H ρ op t == [none] then d.failed ++ [(i, op, t)] else d.failed
+         | none => d.failed)
+      | _, _ => d.failed
+    here ++ failingLookups H S kinds (n + 1) (refStep H w a)
+      { memo := memo', lossy := lossy', rejReg := rejReg', leak := leak', failed := failed' } as os
 
 def run (j : Json) : Except String Json := do
   let (tab, _uni) ← hierOfJson (← j.getObjVal? "hier")
@@ -285,18 +351,36 @@ def run (j : Json) : Except String Json := do
     match ca with
     | .register i t e kw =>
       let a := Action.register i t e kw
+      let err := (w[i]?.map (fun r => (registerChecked H r t e kw).2)).getD none
+      if err.isSome then branches := branches ++ ["rejected-register"]
+      if err.isSome != (ob.raised == some "TypeError") then
+        notes := notes ++ [s!"register({t}): the model says {if err.isSome then "TypeError" else "accepted"}, the implementation {ob.raised.getD "accepted"}"]
       w := (step H w a).1; acts := acts ++ [a]
       modelAns := modelAns ++ [none]; implAns := implAns ++ [none]
-      modelObs := modelObs ++ [Json.null]
+      modelObs := modelObs ++ [if err.isSome then Json.mkObj [("raised", "TypeError")] else Json.null]
     | .registerOp i op f e =>
       let order := ob.order.getD []
       let known := (w[i]?.map Reg.knownTypes).getD []
       if !(isPerm order known) then
         notes := notes ++ [s!"register_op order {order} is not a permutation of the model's known types {known}"]
       let a := Action.registerOp i op f e order
+      let err := (w[i]?.map (fun r => (registerOpChecked H r op f e order).2)).getD none
+      if err.isSome then branches := branches ++ ["rejected-register-op"]
+      if err.isSome != (ob.raised == some "TypeError") then
+        notes := notes ++ [s!"register_op({op}): the model says {if err.isSome then "TypeError" else "accepted"}, the implementation {ob.raised.getD "accepted"}"]
       w := (step H w a).1; acts := acts ++ [a]
       modelAns := modelAns ++ [none]; implAns := implAns ++ [none]
-      modelObs := modelObs ++ [Json.null]
+      modelObs := modelObs ++ [if err.isSome then Json.mkObj [("raised", "TypeError")] else Json.null]
+    | .badCall i what =>
+      let err : RegError := if what == "register-instance" then .notAType
+        else if what == "register_op-name" then .badOpName else .badAutoFunc
+      branches := branches ++ ["rejected-call"]
+      if ob.raised != some "TypeError" then
+        notes := notes ++ [s!"{what}: the model says TypeError, the implementation {ob.raised.getD "accepted"}"]
+      let a := Action.badCall i err
+      w := (step H w a).1; acts := acts ++ [a]
+      modelAns := modelAns ++ [none]; implAns := implAns ++ [none]
+      modelObs := modelObs ++ [Json.mkObj [("raised", "TypeError")]]
     | .create i =>
       -- Glommer.__init__: copy the ops of the registry it is created from (the module registry)
       let isGlommer := match kinds[i]? with | some (.glommer _) => true | _ => false
@@ -327,8 +411,9 @@ def run (j : Json) : Except String Json := do
       | some r =>
         branches := branches ++ [lookupBranch H r op t]
         let a := Action.lookup i op t re
-        let (w', o) := step H w a
-        w := w'; acts := acts ++ [a]
+        let (r', o1) := getHandlerV storeMisses H r op t re
+        let o := some o1
+        w := updateAt (fun _ => r') i w; acts := acts ++ [a]
         modelAns := modelAns ++ [o]
         match ob.calls with
         | [c] =>
@@ -342,7 +427,7 @@ def run (j : Json) : Except String Json := do
       match w[i]? with
       | none => throw s!"no registry {i}"
       | some r =>
-        let (r', calls) := glomCalls H r spec t
+        let (r', calls) := glomCalls storeMisses H r spec t
         -- branch of the first call
         branches := branches ++ [s!"glom-{spec}"] ++ (calls.head?.map (fun c => [lookupBranch H r c.op t])).getD []
         w := updateAt (fun _ => r') i w
@@ -381,11 +466,13 @@ def run (j : Json) : Except String Json := do
   return Json.mkObj [("agree", agree), ("holds", holds), ("model_holds", modelHolds),
     ("wf", tableOK tab),
     ("shape_ok", shapeOK),
+    ("memo_stores_misses", storeMisses),
     ("model", Json.mkObj [("obs", Json.arr modelObs.toArray),
       ("trees", Json.arr (w.map (fun r => Json.arr (r.typeTree.map (fun p =>
         Json.arr #[Json.str p.1, forestToJson p.2])).toArray)).toArray)]),
     ("failing", Json.arr (failingLookups H S kinds 0 refW
-        ((List.range kinds.length).map (fun i => (i, [], []))) [] acts implAns).toArray),
+        { memo := (List.range kinds.length).map (fun i => (i, [], [])) } acts implAns).toArray),
+    ("rejected", (branches.filter (fun b => b.startsWith "rejected")).length),
     ("branch", rep),
     ("why", "; ".intercalate why)]
 
